@@ -24,7 +24,7 @@ import tempfile
 
 from vlib import trace
 
-DEV_WORKERS = int(os.environ.get("VERIF_C10_WORKERS", "4"))     # TLC workers / driver processes
+WORKERS = int(os.environ.get("VERIF_C10_WORKERS", "4"))     # TLC workers = driver processes = judge chunks
 NAMES = ["alpha", "beta", "alpha beta", "beta alpha", "gamma"]
 CLAUSES = ("C10.line", "C10.union", "C10.all", "C10.exempt", "C10.others_skipped", "C10.files", "C10.listfile", "C10.name")
 
@@ -312,7 +312,7 @@ def observe_name(job):
                 run_model(features, args)
             row["obs"] = [{"line": int(s.line), "name": list(s.name), "sel": sel[k], "ran": True, "status": s.status.name}
                           for k, s in enumerate(scen)]
-        except Exception as x:
+        except (Exception, SystemExit) as x:
             row["exc"] = type(x).__name__
     finally:
         shutil.rmtree(d, ignore_errors=True)
@@ -431,15 +431,20 @@ def build_jobs(chk, layouts, lists, names, scratch):
 
 
 # --------------------------------------------------------------------------- signatures
-def list_attrs(job):
+def list_attrs(job, row):
+    """label only (the verdict is TLC's): are the wrong locations exactly the indented relative entries of a list
+    file outside the current directory, each naming a non-existing file, and everything else as required?"""
     es = [e for e in job["list"] if e["k"] == "entry"]
-    haz = any(e["indent"] > 0 and not e["abs"] for e in es)
-    return "here=%s|indented_relative_entry=%d" % (job["here"], 1 if haz else 0)
+    hazard = [e["indent"] > 0 and not e["abs"] and job["here"] == "sub" for e in es]
+    only = (row["locs_exc"] == "" and len(row["locs"]) == len(es) and any(hazard) and
+            all(l["line"] == (e["line"] if e["hasline"] else 0) and l["f"] == (0 if h else e["f"])
+                for l, e, h in zip(row["locs"], es, hazard)))
+    return "here=%s|cause=%s" % (job["here"], "indented_relative_entry" if only else "other")
 
 
 def signature(clause, job, row, n):
     if job["kind"] == "list":
-        return "%s|list|%s" % (clause, list_attrs(job))
+        return "%s|list|%s" % (clause, list_attrs(job, row) if clause == "C10.listfile" else "here=" + job["here"])
     if job["kind"] == "name":
         return "%s|name|options=%d|branches=%s" % (clause, len(job["pats"]), ",".join(str(len(p)) for p in job["pats"]))
     spec = job["runs"][n - 1]
@@ -505,7 +510,7 @@ def judge(chk, rows, chunks):
 def run(chk):
     quick = chk.quick()
     cfg = "Select_MC_quick.cfg" if quick else "Select_MC_thorough.cfg"
-    r = chk.tlc("Select_MC", cfg, timeout=100 if quick else 800, workers=DEV_WORKERS)
+    r = chk.tlc("Select_MC", cfg, timeout=100 if quick else 800, workers=WORKERS)
     for name in r.violated:
         chk.violation("C10.design." + name, "design:%s" % name, "TLC: invariant %s violated in Select_MC (%s)" % (name, cfg))
     cases = [json.loads(t[1]) for t in r.by_tag("CASE")]
@@ -520,15 +525,15 @@ def run(chk):
     try:
         jobs = build_jobs(chk, layouts, lists, names, scratch)
         registry()
-        if DEV_WORKERS > 1:
+        if WORKERS > 1:
             ctx = multiprocessing.get_context("fork")
-            with ctx.Pool(DEV_WORKERS) as pool:
+            with ctx.Pool(WORKERS) as pool:
                 rows = pool.map(observe, jobs, chunksize=16)
         else:
             rows = [observe(j) for j in jobs]
     finally:
         shutil.rmtree(scratch, ignore_errors=True)
-    verdicts, diverge = judge(chk, rows, chunks=DEV_WORKERS)
+    verdicts, diverge = judge(chk, rows, chunks=WORKERS)
     chk.divergences = diverge
     byid = {row["id"]: row for row in rows}
     jobid = {j["id"]: j for j in jobs}
